@@ -346,7 +346,7 @@ Theorem op_strict_mix C S frs F kind name sels root own pub' cls g gs j n :
   n >= F + g + 2 ->
   accepts n cls (schema_enums S) (AClass (pascal_s name)) j = true ->
   covers n cls (AClass (pascal_s name)) j = true ->
-  ev (fun fc => conf_op_gen lax_leaf false fc S frs root sels j).
+  ev (fun fc => conf_op_gen lax_leaf false true fc S frs root sels j).
 Proof.
   intros Hroot Hop Hall Hok Hst Hnd Hnb Hfs Hn Hacc Hcov.
   apply nodupb_NoDup in Hnd.
